@@ -159,6 +159,14 @@ func c18Extra(c *explore.Ctx) {
 		{"BIG130", big, []pairT{{"a", "x"}, {"a", "u3"}, {"a", "u39"}, {"_id", "r7"}, {"_id", "r129"}, {"b", "t1"}, {"b", "t6"}, {"nosuch", "x"}, {"a", "zz"}}, 2},
 		{"LONGLIST", []gen.Doc{gen.MixDoc(2, "m", 0), gen.MixDoc(1, "m", 1), gen.MixDoc(2, "m", 2), gen.MixDoc(1, "m", 3)}, []pairT{{"a", "x"}, {"a", "um1"}, {"_id", "m3"}}, 6},
 	}
+	{
+		// 66 000 documents: matching documents span two roaring containers
+		huge := gen.Large(66000, 1, 1)
+		for _, j := range []int{0, 65535, 65536, 65537, 65999} {
+			huge[j] = append(gen.Doc{gen.IDField("h", j)}, huge[j]...)
+		}
+		cases = append(cases, cs{"HUGE66000", huge, []pairT{{"a", "x"}, {"a", "y"}, {"_id", "h65536"}, {"_id", "h65535"}, {"a", "nosuch"}}, 2})
+	}
 	for _, cse := range cases {
 		ls := model.Build(cse.batch)
 		for fi, form := range []string{"built", "loaded", "merged"} {
